@@ -31,6 +31,8 @@ import (
 	"fmt"
 	"math/rand"
 	"net"
+	"runtime"
+	"strings"
 	"sync"
 	"sync/atomic"
 	"testing"
@@ -77,6 +79,81 @@ func verifC11BurstValid(r *rand.Rand) []byte {
 	r.Read(w.SharedSecret)
 	b, _ := proto.Marshal(w)
 	return b
+}
+
+var verifC11BurstControls atomic.Int64
+
+// verifC11BurstControl writes a fresh admissible registration (min transport, API source, a phantom the
+// liveness stub calls dead and the blocklist allows) into the pipeline and waits until the manager
+// holds it as VALID.  The pool drops what it cannot take at once, so the control is offered up to three
+// times, 20 s each.  If it never arrives the stacks decide: no ingest worker idle in its select (all
+// parked in a lock / channel deeper in the code, or none alive) on three scans = the pipeline has
+// stalled (violation with a sample stack); otherwise inconclusive.
+func verifC11BurstControl(rec *kit.Rec, h *verifC11Lib, regChan chan interface{}, when string) bool {
+	rm := h.rm
+	r := kit.Rand(fmt.Sprintf("c11-burst-control/%d", verifC11BurstControls.Add(1)))
+	var msg []byte
+	var want *DecoyRegistration
+	for try := 0; try < 200 && want == nil; try++ {
+		c := &pb.ClientToStation{Transport: pb.TransportType_Min.Enum(), ClientLibVersion: proto.Uint32(4), DecoyListGeneration: proto.Uint32(957),
+			V4Support: proto.Bool(true), V6Support: proto.Bool(false), CovertAddress: proto.String("192.0.2.99:443")}
+		src := pb.RegistrationSource_API
+		w := &pb.C2SWrapper{SharedSecret: make([]byte, 32), RegistrationPayload: c, RegistrationSource: &src, RegistrationAddress: []byte{203, 0, 113, 99}}
+		r.Read(w.SharedSecret)
+		b, _ := proto.Marshal(w)
+		regs, err := rm.parseRegMessage(b)
+		if err != nil || len(regs) != 1 || regs[0] == nil {
+			continue
+		}
+		if live, _ := (verifC11Live{}).PhantomIsLive(regs[0].PhantomIp.String(), regs[0].PhantomPort); live || rm.IsBlocklistedPhantom(regs[0].PhantomIp) {
+			continue
+		}
+		msg, want = b, regs[0]
+	}
+	if want == nil {
+		panic("verif infrastructure: cannot build a control registration")
+	}
+	for offer := 0; offer < 3; offer++ {
+		regChan <- msg
+		deadline := time.Now().Add(20 * time.Second)
+		for time.Now().Before(deadline) {
+			if got := rm.registeredDecoys.RegistrationExists(want); got != nil && got.Valid {
+				rec.Count("controls_ingested", 1)
+				if offer > 0 {
+					rec.Count("controls_ingested_only_on_a_later_offer", 1)
+				}
+				return true
+			}
+			time.Sleep(time.Millisecond)
+		}
+	}
+	idleMin, total, sample := -1, 0, ""
+	for scan := 0; scan < 3; scan++ {
+		if scan > 0 {
+			time.Sleep(time.Second)
+		}
+		idle := 0
+		ws := kit.InFunc(kit.Stacks(), "lib.(*RegistrationManager).startIngestThread")
+		total = len(ws)
+		for _, g := range ws {
+			// an idle worker sits in the select of startIngestThread itself
+			if len(g.Frames) > 0 && strings.Contains(g.Frames[0], "startIngestThread") && strings.HasPrefix(g.State, "select") {
+				idle++
+			} else {
+				sample = g.Raw
+			}
+		}
+		if idleMin < 0 || idle < idleMin {
+			idleMin = idle
+		}
+	}
+	d := map[string]interface{}{"when": when, "ingest_workers_alive": total, "of_them_idle_in_their_select(min of 3 scans)": idleMin, "sample_stack_of_a_busy_worker": sample}
+	if idleMin <= 0 {
+		rec.Violation("hang:station-ingest:pipeline-stalled", "a fresh admissible control registration written into the ingest channel never became valid (3 offers, 20 s each) and no ingest worker is idle: the pipeline has stalled ("+when+")", d)
+	} else {
+		rec.Inconclusive("a control registration did not become valid although ingest workers are idle", d)
+	}
+	return false
 }
 
 func TestVerifC11Burst(t *testing.T) {
@@ -204,12 +281,42 @@ func TestVerifC11Burst(t *testing.T) {
 			}(p)
 		}
 		prod.Wait()
-		// drain, then stop the pipeline the way the station does
-		deadline := time.Now().Add(60 * time.Second)
-		for len(regChan) > 0 && time.Now().Before(deadline) {
-			time.Sleep(time.Millisecond)
+		drain := func() {
+			deadline := time.Now().Add(60 * time.Second)
+			for len(regChan) > 0 && time.Now().Before(deadline) {
+				time.Sleep(time.Millisecond)
+			}
+			time.Sleep(200 * time.Millisecond)
 		}
-		time.Sleep(200 * time.Millisecond)
+		drain()
+		// still alive after all that?  CONTROL: a fresh, admissible registration must become valid
+		alive := verifC11BurstControl(rec, h, regChan, wdesc+" after the bursts")
+		// … and after junk only (300, 1 000, 5 000 malformed messages, same pipeline, no restart)
+		if alive && workers == 0 {
+			r := kit.Rand("c11-burst-junk")
+			for _, n := range []int{300, 1000, 5000} {
+				for i := 0; i < n; i++ {
+					c := kit.C11WrapperInput(r, false)
+					for strings.HasPrefix(c.Kind, "pb:valid") {
+						c = kit.C11WrapperInput(r, false)
+					}
+					regChan <- c.In
+					if i%200 == 199 {
+						for len(regChan) > 0 {
+							time.Sleep(200 * time.Microsecond)
+						}
+						time.Sleep(5 * time.Millisecond)
+					}
+				}
+				fed.Add(int64(n))
+				rec.Count("evaluations", n)
+				rec.Count("junk_only_messages", n)
+				drain()
+				if alive = verifC11BurstControl(rec, h, regChan, fmt.Sprintf("%s after %d junk-only messages", wdesc, n)); !alive {
+					break
+				}
+			}
+		}
 		sampleKeys()
 		cancel()
 		select {
@@ -227,6 +334,15 @@ func TestVerifC11Burst(t *testing.T) {
 	}
 	if left := kit.WaitNoGoroutineIn(90*time.Second, "lib.tryShareRegistrationOverAPI", "lib.handleConnectingTpReg", "dtls.(*Transport).Connect"); left != nil {
 		rec.Inconclusive("goroutines started by ingest still running 90 s after the last burst", map[string]interface{}{"count": len(left), "first": left[0].Raw})
+	}
+	if n := runtime.NumGoroutine(); n > 10000 {
+		stable, parked, sample := kit.C11Lingering("conjure/pkg/station/lib.")
+		d := map[string]interface{}{"goroutines": n, "station_goroutines_lingering": stable, "of_them_parked": parked, "sample_stack": sample}
+		if stable > 10000 && parked > 10000 {
+			rec.Violation("resource:goroutines-leaked:station-ingest", fmt.Sprintf("%d goroutines of the station linger, parked, after all pipelines were stopped (three scans)", parked), d)
+		} else {
+			rec.Inconclusive("many goroutines after the bursts, but not stably parked station goroutines", d)
+		}
 	}
 	rec.Count("messages_fed", int(fed.Load()))
 	rec.Count("detector_publications", int(h.pubs.Load())+h.redis.Len())
